@@ -1,6 +1,6 @@
 ---------------------------- MODULE Gen_ShrexEds ----------------------------
 EXTENDS ShrexEds, Json
-AllKinds == {"app", "hdr", "honest", "trunc", "append", "swap", "flip", "replace", "dup", "allB", "rotate", "zeros", "craft"}
+AllKinds == {"app", "hdr", "honest", "trunc", "append", "swap", "flip", "replace", "dup", "allB", "rotate", "zeros", "craft", "pad", "allpad"}
 \* for the largest squares: the app-version table and a thin slice of mutations
 FewKinds == {"app", "honest", "flip", "allB"}
 RECURSIVE SeqOfSet(_)
